@@ -247,3 +247,66 @@ MUTANTS += [
     dict(id="c06-treepath-storage-global", property="C06", edits=[(S, "_treepath_storage = threading.local()", "_treepath_storage = " + _NS)]),
     dict(id="c06-treeflatten-storage-global", property="C06", edits=[(S, "_treeflatten_storage = threading.local()", "_treeflatten_storage = " + _NS)]),
 ]
+
+MUTANTS += [
+    # ---- C12
+    dict(id="c12-flatten-clear-not-in-finally", property="C12", edits=[(P, """        try:
+            leaves, structure = jtu.tree_flatten(obj, is_leaf=is_flatten_leaftype)
+        finally:
+            if not already_flattening:
+                clear_treeflatten_memo()""", """        leaves, structure = jtu.tree_flatten(obj, is_leaf=is_flatten_leaftype)
+        if not already_flattening:
+            clear_treeflatten_memo()""")]),
+    dict(id="c12-treepath-clear-not-in-finally", property="C12", edits=[(P, """        finally:
+            # Only clear what we set: an unstructured `PyTree[...]` nested inside a
+            # structured one must not wipe the outer PyTree's leaf position.
+            if cls.structure is not None:
+                clear_treepath_memo()
+        return True""", """        finally:
+            pass
+        return True""")]),
+    dict(id="c12-transparent-param-annotations-too", property="C12", edits=[(D, """                if hasattr(fn, "__annotations__") and "return" in fn.__annotations__:
+                    modify_annotation(fn.__annotations__["return"])""", """                if hasattr(fn, "__annotations__"):
+                    for _a in fn.__annotations__.values():
+                        modify_annotation(_a)""")]),
+    dict(id="c12-newstyle-generator-transparent", property="C12", edits=[(D, """            full_signature = inspect.signature(fn)
+            try:
+                destring_annotations""", """            full_signature = inspect.signature(fn)
+            if inspect.isgeneratorfunction(fn):
+                for _a in getattr(fn, "__annotations__", {}).values():
+                    if inspect.isclass(_a) and issubclass(_a, AbstractArray):
+                        _a.make_transparent()
+            try:
+                destring_annotations""")]),
+    dict(id="c12-pop-skipped-when-fn-raises-keyerror", property="C12", edits=[(D, """                try:
+                    # Put this in a separate frame to make debugging easier, without
+                    # just always ending up on the `pop_shape_memo` line below.
+                    return wrapped_fn_impl(args, kwargs, bound, memos)
+                finally:
+                    pop_shape_memo()""", """                try:
+                    out = wrapped_fn_impl(args, kwargs, bound, memos)
+                except KeyError:
+                    raise
+                except BaseException:
+                    pop_shape_memo()
+                    raise
+                pop_shape_memo()
+                return out""")]),
+    dict(id="c12-disable-flag-sticky", property="C12", edits=[("jaxtyping/_config.py", "            self.jaxtyping_disable = _maybestr2bool(value, msg)", "            self.jaxtyping_disable = _maybestr2bool(value, msg) or getattr(self, 'jaxtyping_disable', False)")]),
+    dict(id="c12-pytree-cache-ignores-structure", property="C12", edits=[(P, """    @ft.lru_cache(maxsize=None)
+    def __getitem__(cls, item):""", """    def __getitem__(cls, item):
+        key = item[0] if isinstance(item, tuple) and len(item) == 2 else item
+        try:
+            return cls._jtv_cache[key]
+        except (KeyError, AttributeError, TypeError):
+            out = cls._getitem_impl(item)
+            try:
+                if not hasattr(cls, "_jtv_cache"):
+                    cls._jtv_cache = {}
+                cls._jtv_cache[key] = out
+            except TypeError:
+                pass
+            return out
+
+    def _getitem_impl(cls, item):""")]),
+]
